@@ -250,6 +250,8 @@ CONTRACTS = [
     rt(dns.Record_SSHFP, dict(algorithm=U8, fingerprintType=U8, fingerprint=Bytes(small_len=2)), length=True),
     rt(dns.Query, dict(type=U16, cls=U16), names=["name"]),
 ]
+for _k in CONTRACTS:
+    _k.replay_decides = False  # the wire form of a domain name is an uninterpreted function (NAMEWIRE)
 BOUNDED = bounded("C32")
 _RECORDS = ("A, AAAA, MX, SRV, AFSDB, RP, MINFO, SimpleRecord (NS, CNAME, PTR, DNAME, MB, MD, MF, MG, MR), SOA, NULL, "
             "UnknownRecord, HINFO, SSHFP, Query and TXT / SPF (up to two strings of arbitrary content)")
